@@ -4,7 +4,7 @@ import os
 
 ID = "C09"
 RULE = (
-    "case = (ordered group of 1..2 (thorough 3) members from a 14-member alphabet (two that collect errors, one with falsy variable values, an empty printout and an identity that starts with a digit), file, run method); run on a fresh CsvPaths in a clean "
+    "case = (ordered group of 1..2 (thorough 3) members from a 15-member alphabet (one run-mode: no-run, (two that collect errors, one with falsy variable values, an empty printout and an identity that starts with a digit), file, run method); run on a fresh CsvPaths in a clean "
     "sandbox; the archive tree is compared with models/refarchive.py computed from the in-memory Result objects after the method "
     "returns (meta.json identity/metadata/valid/stopped/counters, vars.json, errors.json, printouts.txt, data.csv, unmatched.csv, member manifest valid/completed/file_fingerprints, run "
     "manifest status/all_valid/all_completed/error_count, member directory names); the expected collected lines come from a standalone "
@@ -12,7 +12,7 @@ RULE = (
     "failed; state = (member, what it archived)"
 )
 BOUNDS = {
-    "quick": "14 singles + 182 ordered pairs x 7 files (quotes, delimiters, embedded newlines, non-ASCII, blank records, empty file) x 6 run methods; plus every single member run after a run of another group on the same instance",
+    "quick": "15 singles + 210 ordered pairs x 7 files (quotes, delimiters, embedded newlines, non-ASCII, blank records, empty file) x 6 run methods; plus every single member run after a run of another group on the same instance",
     "thorough": "singles, pairs and 2,184 ordered triples x 10 files x 6 run methods",
 }
 CHUNK = 40
@@ -36,10 +36,11 @@ MEMBERS = [
     '~ id: um unmatched-mode: keep ~ $[*][#0 == "k"]',
     "~ name: named ~ $[1*][yes()]",
     '~ id: nomatch return-mode: no-matches ~ $[*][#0 == "k"]',
+    '~ id: norun run-mode: no-run ~ $[*][yes() print("never ")]',
     '~ id: err2 ~ $[*][#0 == "k" -> @d = divide(1, "x")]',
     '~ id: 2falsy ~ $[*][@zero = subtract(count_lines(), count_lines()) @f = no() @t.z = subtract(1, 1) @t.f = no() print("")]',
 ]
-IDS = [None, "filt", "vars", "track", "pr", "prn", "failer", "stopper", "err", "um", "named", "nomatch", "err2", "2falsy"]
+IDS = [None, "filt", "vars", "track", "pr", "prn", "failer", "stopper", "err", "um", "named", "nomatch", "norun", "err2", "2falsy"]
 FILES = [
     [["k", "1"], ["n", "2"], ["k", "3"]],
     [["n", 'a"b'], ["k", "x,y"], ["n", "l1\nl2"]],
